@@ -32,4 +32,21 @@ theorem crcFrom_inj (c d : BitVec 32) (bs : Bytes) (h : Spec.crcFrom c bs = Spec
     simp only [Spec.crcFrom, List.foldl_cons] at h ih
     exact feedByte_inj _ _ b (ih _ _ h)
 
+/-! ### injectivity in the input byte -/
+
+theorem crcBits8_inj (x y : BitVec 32) (h : crcBits8 x = crcBits8 y) : x = y := by
+  unfold crcBits8 at h
+  exact crcBit_inj _ _ (crcBit_inj _ _ (crcBit_inj _ _ (crcBit_inj _ _ (crcBit_inj _ _ (crcBit_inj _ _
+    (crcBit_inj _ _ (crcBit_inj _ _ h)))))))
+
+theorem idx_lt (v : BitVec 32) : (v &&& 0xff#32).toNat < 256 := by
+  rw [BitVec.toNat_and]
+  exact Nat.lt_of_le_of_lt Nat.and_le_right (by decide)
+
+theorem shl24_inj (i j : BitVec 32) (hi : i.toNat < 256) (hj : j.toNat < 256) (h : i <<< 24 = j <<< 24) : i = j := by
+  apply BitVec.eq_of_toNat_eq
+  have := congrArg BitVec.toNat h
+  simp only [BitVec.toNat_shiftLeft, Nat.shiftLeft_eq] at this
+  omega
+
 end Astits
